@@ -10,7 +10,10 @@ def run(tier, seed):
     k = 2 if tier == "quick" else 3
     _, rep = coscommon.mc_and_replay(v, wd, "c16", k, workers=12 if tier == "quick" else 15)
     vlib.require(rep["nontrivial"] > 100, "replay too small")
-    return v.finish("model_checking", "lists of <= %d cosmetic rules" % k, exhaustive=True)
+    # the text side: cosmetic lines <locations>#<marker>#<body> -> rule or refusal (CosParse.tla)
+    _, rep_p = coscommon.mc_and_replay(v, wd, "parse", 1, workers=8)
+    vlib.require(rep_p["evaluations"] > 40000 and rep_p["nontrivial"] > 200, "cosmetic parse universe too small")
+    return v.finish("model_checking", "lists of <= %d cosmetic rules from the 40-rule scoping pool x 13 page hosts; plus every cosmetic line of 14 location texts x 11 markers x 20 bodies (3080 lines), parsed by CosParse.tla and replayed as one-line lists" % k, exhaustive=True)
 
 
 def replay(path):
